@@ -53,7 +53,7 @@ def base_manifest(rng):
 
 MUTATIONS = ['insert', 'delete', 'dup', 'move', 'trail', 'inner', 'crlf', 'dash+',
              'dash-', 'concat', 'nul', 'long', 'flip', 'outside', 'header', 'case',
-             'sepws', 'sepnul', 'ubreak', 'none']
+             'sepws', 'sepnul', 'hdr-after', 'hdr-after', 'ubreak', 'none']
 
 UBREAKS = ['\x0b', '\x0c', '\x1c', '\x1d', '\x1e', '\x85', '\u2028', '\u2029']
 
@@ -142,6 +142,20 @@ def mutate(rng, signed, other_signed):
             if lines[k] == '':
                 lines[k] = rng.choice([' ', '\t', '\r'])
                 break
+    elif op == 'hdr-after':
+        # armor headers are not signed: repeat the Hash header after the others, or
+        # put the headers in the opposite order
+        try:
+            end = lines.index('', 1)
+        except ValueError:
+            end = 1
+        hdrs = lines[1:end]
+        if hdrs:
+            if rng.random() < 0.5:
+                hs = [h for h in hdrs if h.startswith('Hash:')] or ['Hash: SHA256']
+                lines.insert(end, hs[0])
+            else:
+                lines[1:end] = list(reversed(hdrs))
     elif op == 'sepnul':
         # NUL bytes on the separator line / on an armor header line (gpg takes a
         # line holding only NULs for an empty one)
@@ -343,6 +357,66 @@ def run_resign(u, ctx):
                           'tampered cleartext (%s) was accepted by an update with signing '
                           'requested (%s)%s' % (how, api, '; the Manifest was rewritten'
                                                 if now != forged else ''), case)
+
+
+FILE_PREFIXES = [b'\xef\xbb\xbf', b'\xef\xbb\xbf\n', b'\xef\xbb\xbf\n\n', b'\xef\xbb\xbf ',
+                 b'\xe2\x80\x8b', b'\xc2\xa0x\n', b'\xef\xbb\xbf\xef\xbb\xbf', b'\x00\n']
+
+
+def run_filejunk(u, ctx):
+    """The signed top-level Manifest as a FILE (read through the loader's own
+    open/decoding path) with non-blank bytes in front of, or behind, the signed
+    block - byte-order marks and other invisible characters included."""
+    import logging
+    from gemato.exceptions import GematoException
+    from gemato.openpgp import SystemGPGEnvironment
+    from gemato.recursiveloader import ManifestRecursiveLoader
+    h = home()
+    rng = common.rng_for(ctx.seed, 'C04', 'filejunk', u['i'])
+    data = rng.randbytes(10)
+    signed = h.clearsign(mtext.render([mtext.file_entry('DATA', 'a', data, ['SHA256'])]))
+    junk = FILE_PREFIXES[u['i'] % len(FILE_PREFIXES)]
+    where = ['before', 'after'][(u['i'] // len(FILE_PREFIXES)) % 2]
+    api = ['lib', 'cli'][(u['i'] // (2 * len(FILE_PREFIXES))) % 2]
+    raw = junk + signed.encode() if where == 'before' else signed.encode() + junk
+    case = {'kind': 'filejunk', 'i': u['i'], 'junk': junk.hex(), 'where': where,
+            'api': api}
+    ctx.case(sig=('filejunk', junk.hex(), where, api), case=case, klass='gpg-filejunk')
+    ctx.count('gpg:filejunk_cases')
+    logging.getLogger().setLevel(logging.CRITICAL)
+    with common.Scratch('vf-c04f-') as d:
+        with open(os.path.join(d, 'a'), 'wb') as f:
+            f.write(data)
+        top = os.path.join(d, 'Manifest')
+        with open(top, 'wb') as f:
+            f.write(raw)
+        os.environ['GNUPGHOME'] = h.dir
+        try:
+            if api == 'cli':
+                from gemato import cli as gcli
+                try:
+                    rc = gcli.main(['gemato', 'verify', '-s', d])
+                except SystemExit as exc:
+                    rc = exc.code
+                accepted = rc == 0
+            else:
+                try:
+                    m = ManifestRecursiveLoader(top, verify_openpgp=True,
+                                                openpgp_env=SystemGPGEnvironment())
+                    accepted = bool(m.openpgp_signed)
+                except GematoException:
+                    accepted = False
+        except Exception as exc:
+            ctx.violation('gpg-load-raises:' + adapt.exc_key(exc), 'loading a signed '
+                          'Manifest file with junk %s the block raised %r'
+                          % (where, exc), case)
+            return
+        finally:
+            os.environ.pop('GNUPGHOME', None)
+        if accepted:
+            ctx.violation('junk-outside-signed-block-accepted:' + where, 'a Manifest '
+                          'file with the non-blank bytes %r %s the signed block is '
+                          'reported as validly signed (%s)' % (junk, where, api), case)
 
 
 def run_reload(u, ctx):
